@@ -563,7 +563,8 @@ func (a *Agent) handleUDPOpenAck(peerID identity.AgentID, frame *protocol.Frame)
 	// Look up via exit stream (new structure)
 	a.udpIngressMu.RLock()
 	lookup := a.udpIngressByLocalStream[frame.StreamID]
-	if lookup == nil {
+	if lookup == nil || lookup.Dest.NextHop != peerID {
+		// Stream IDs are per connection: only the association's next hop speaks for it
 		a.udpIngressMu.RUnlock()
 		return
 	}
@@ -620,7 +621,7 @@ func (a *Agent) handleUDPOpenErr(peerID identity.AgentID, frame *protocol.Frame)
 	// Look up via exit stream (new structure)
 	a.udpIngressMu.RLock()
 	lookup := a.udpIngressByLocalStream[frame.StreamID]
-	if lookup == nil {
+	if lookup == nil || lookup.Dest.NextHop != peerID {
 		a.udpIngressMu.RUnlock()
 		return
 	}
@@ -660,9 +661,14 @@ func (a *Agent) handleUDPDatagram(peerID identity.AgentID, frame *protocol.Frame
 	}
 
 	// Check if this is for ingress via exit stream lookup (new structure)
-	// Hold lock while getting lookup and extracting needed references
+	// Hold lock while getting lookup and extracting needed references.
+	// Stream IDs are per connection, so the frame belongs to the association
+	// only if it arrives from the association's next hop.
 	a.udpIngressMu.RLock()
 	lookup := a.udpIngressByLocalStream[frame.StreamID]
+	if lookup != nil && lookup.Dest.NextHop != peerID {
+		lookup = nil
+	}
 	var dest *udpDestAssociation
 	var ingress *udpIngressAssociation
 	if lookup != nil {
@@ -766,6 +772,9 @@ func (a *Agent) handleUDPClose(peerID identity.AgentID, frame *protocol.Frame) {
 	// Use write lock to atomically check and remove
 	a.udpIngressMu.Lock()
 	lookup := a.udpIngressByLocalStream[frame.StreamID]
+	if lookup != nil && lookup.Dest.NextHop != peerID {
+		lookup = nil
+	}
 	var dest *udpDestAssociation
 	var ingress *udpIngressAssociation
 	if lookup != nil {
